@@ -115,6 +115,18 @@ func init() {
 		if base == 0 {
 			panic(unsupported("ParseUint base 0"))
 		}
+		if d, ok := e.decimalOrigin(s.B); ok && base == 10 && !d.signed {
+			// the whole string is the %d rendering of an unsigned integer of this run: parse(print(v)) = v
+			e.rep.Stubs["strconv.ParseUint applied to a string produced by the %d model of the same run: result taken as the rendered integer (parse(print(v)) = v)"]++
+			v := e.tb.ZExt(d.val, 64)
+			if bits > 0 && bits < 64 && d.val.W > bits {
+				max := e.tb.ConstBig(64, maskBig(bits))
+				if e.branch(e.tb.ULt(max, v)) {
+					return Tuple{max, e.errorValue(e.strConst("strconv.ParseUint: value out of range"))}
+				}
+			}
+			return Tuple{v, Iface{}}
+		}
 		v, ok, msg := e.parseUnsigned(s.B, base, bits)
 		if !ok {
 			return Tuple{v, e.errorValue(e.strConst("strconv.ParseUint: parsing: " + msg))}
